@@ -518,6 +518,215 @@ Proof.
     destruct (sr_child ro); destruct Hc as [Hc|[Hc|[Hc|Hc]]]; rewrite Hc; reflexivity.
 Qed.
 
+(* ---- Chown / Lchown (the node has no set-id bit to lose: "chown clearing set-id bits" is a listed deviation) -------- *)
+Lemma ldiff_absent (m b : N) : has m b = false -> N.ldiff m b = m.
+Proof.
+  unfold has. intros H. apply negb_false_iff, N.eqb_eq in H. apply N.bits_inj. intros n.
+  rewrite N.ldiff_spec. assert (Hn : N.testbit (N.land m b) n = false) by (rewrite H; apply N.bits_0).
+  rewrite N.land_spec in Hn. destruct (N.testbit m n), (N.testbit b n); cbn in *; congruence.
+Qed.
+
+Definition no_setid (s : fsys) (sv : sview) (follow : bool) (cs : list str) : Prop :=
+  forall par kind name n nd, klookup s sv false follow (abs_path cs) = WNode par kind name n ->
+    get (f_heap s) n = Some nd ->
+    (match nd with NDir _ _ => True | _ => False end)
+    \/ (has (m_mode (node_meta nd)) MODE_SETUID = false /\ has (m_mode (node_meta nd)) MODE_SETGID = false).
+
+Theorem step_chown (s : fsys) (sv : sview) (slm : slmode) (cs : list str) (uid gid : Z) :
+  step_hyps s sv -> path_ok s sv slm cs -> no_setid s sv (follow_of slm) cs ->
+  (fst (chown_gen slm s (sv_view sv) (abs_path cs) uid gid),
+   proj_res Linux (snd (chown_gen slm s (sv_view sv) (abs_path cs) uid gid)))
+  = k_chown (follow_of slm) s sv (abs_path cs) uid gid.
+Proof.
+  intros H Hp Hns. pose proof (resolve s sv slm cs H Hp) as R. destruct Hp as (_ & _ & _ & Hnf).
+  unfold chown_gen, k_chown, win, no_setid in *. rewrite (sh_os _ _ H), (sh_admin _ _ H). cbn [ostype_eqb negb].
+  rewrite andb_false_r. cbn [orb].
+  destruct (klookup s sv false (follow_of slm) (abs_path cs)) as [par kind name n|par name md| |e]; cbn [walk_rel] in R.
+  - destruct R as (R1 & R2 & R3 & _). rewrite R2, R1. cbn [is_file_exists negb].
+    destruct (get (f_heap s) n) as [nd|] eqn:Hg; [|congruence]. cbn [orb negb].
+    specialize (Hns _ _ _ _ nd eq_refl Hg). unfold with_owner.
+    destruct nd as [ch m|dt k i m|t m]; cbn [node_meta set_meta] in *.
+    + reflexivity.
+    + destruct Hns as [[]|(H1 & H2)]. rewrite (ldiff_absent _ _ H1), (ldiff_absent _ _ H2).
+      destruct (has (m_mode m) 8); reflexivity.
+    + destruct Hns as [[]|(H1 & H2)]. rewrite (ldiff_absent _ _ H1), (ldiff_absent _ _ H2).
+      destruct (has (m_mode m) 8); reflexivity.
+  - destruct R as (R1 & R2 & _). rewrite R2, R1. reflexivity.
+  - destruct R.
+  - destruct R as (R1 & _). destruct (werr_cases _ _ R1 Hnf) as (Hc & ->).
+    destruct (sr_child _); destruct Hc as [->|[->|[->| ->]]]; reflexivity.
+Qed.
+
+(* ---- Chdir: both succeed, or both fail with the same errno (the implementation keeps the new working directory as a
+        string - by [walk_rel] a link-free path to the node the specification keeps) ------------------------------------ *)
+Theorem step_chdir (s : fsys) (sv : sview) (cs : list str) :
+  step_hyps s sv -> path_ok s sv SlEval cs ->
+  match chdir s (sv_view sv) (abs_path cs), k_chdir s sv (abs_path cs) with
+  | inl r, inl e => proj_res Linux r = SErr e
+  | inr _, inr _ => True
+  | _, _ => False
+  end.
+Proof.
+  intros H Hp. pose proof (resolve s sv SlEval cs H Hp) as R. destruct Hp as (_ & _ & _ & Hnf).
+  unfold chdir, k_chdir, win. rewrite (sh_os _ _ H). cbn [ostype_eqb]. change (follow_of SlEval) with true in R.
+  destruct (klookup s sv false true (abs_path cs)) as [par kind name n|par name md| |e]; cbn [walk_rel] in R.
+  - destruct R as (R1 & R2 & R3 & _). rewrite R2, R1. cbn [is_file_exists negb]. unfold node_is_dir.
+    destruct (get (f_heap s) n) as [[ch m|dt k i m|t m]|] eqn:Hg; cbn [negb]; try reflexivity.
+    rewrite (admin_kperm s sv n 1 H) by congruence. unfold check_permission. rewrite (sh_admin _ _ H). exact I.
+  - destruct R as (R1 & R2 & _). rewrite R1. reflexivity.
+  - destruct R.
+  - destruct R as (R1 & _). destruct (werr_cases _ _ R1 Hnf) as (Hc & ->).
+    destruct Hc as [->|[->|[->| ->]]]; reflexivity.
+Qed.
+
+(* ---- ReadFile / ReadDir (OpenFile with O_RDONLY, then the handle methods) --------------------------------------- *)
+Lemma open_rdonly (s : fsys) (v : view) (vi : nat) (name : str) (perm : N) :
+  open_file s v vi name 0 perm =
+    let r := search_node s v name SlEval in
+    let e := sr_err r in
+    if (negb (is_file_exists e) && negb (is_not_exist e)) || negb (pi_is_last (sr_pi r)) then (s, inl (RFail e))
+    else if is_not_exist e then (s, inl (RFail e))
+    else match sr_child r with
+         | Some c =>
+             match get (f_heap s) c with
+             | Some (NFile d k i m) =>
+                 if negb (check_permission m OpenRead (v_user v)) then (s, inl (RFail EPermDenied))
+                 else (with_heap s (upd (f_heap s) c (NFile d k i m)), inr (new_handle c vi name 0 OpenRead))
+             | Some (NDir _ m) =>
+                 if negb (check_permission m OpenRead (v_user v)) then (s, inl (RFail EPermDenied))
+                 else (s, inr (new_handle c vi name 0 OpenRead))
+             | _ => (s, inr (new_handle c vi name 0 OpenRead))
+             end
+         | None => (s, inl RPanic)
+         end.
+Proof.
+  unfold open_file. change (to_open_mode 0) with OpenRead.
+  change (has OpenRead OpenCreateExcl) with false. change (has OpenRead OpenCreate) with false.
+  change (has OpenRead OpenTruncate) with false. change (has OpenRead OpenAppend) with false.
+  change (has OpenRead OpenWrite) with false. cbv iota zeta beta. cbn [andb negb].
+  rewrite andb_false_r. cbv iota. reflexivity.
+Qed.
+
+Lemma firstn_whole (A : Type) (l : list A) (n : nat) : length l <= n -> firstn n l = l.
+Proof. intros H. apply firstn_all2. exact H. Qed.
+
+Lemma f_read_whole (s1 : fsys) (v : view) (c vi : nat) (name : str) (d : list N) (k : Z) (i : N) (m : meta) :
+  name <> [] -> get (f_heap s1) c = Some (NFile d k i m) ->
+  snd (f_read s1 v (new_handle c vi name 0 OpenRead) (Z.of_nat (length d) + 512))
+  = match d with [] => RBytes 0 [] (Some EG_EOF) | _ => RBytes (Z.of_nat (length d)) d None end.
+Proof.
+  intros Hn Hg. unfold f_read, file_of. cbn [new_handle hd_name hd_node hd_mode hd_at]. rewrite Hg.
+  destruct name as [|c0 name]; [congruence|]. change (has OpenRead OpenRead) with true. cbn [negb].
+  change (Z.to_nat 0) with 0. cbn [skipn].
+  rewrite firstn_whole by lia. destruct d as [|x d]; [reflexivity|].
+  replace (Z.eqb (Z.of_nat (length (x :: d))) 0) with false; [reflexivity|].
+  symmetry. apply Z.eqb_neq. cbn [length]. lia.
+Qed.
+
+Theorem step_read_file (s : fsys) (sv : sview) (cs : list str) :
+  step_hyps s sv -> path_ok s sv SlEval cs ->
+  proj_res Linux (read_file s (sv_view sv) (abs_path cs)) = go_read_file s sv (abs_path cs).
+Proof.
+  intros H Hp. pose proof (resolve s sv SlEval cs H Hp) as R. destruct Hp as (_ & _ & _ & Hnf).
+  pose proof (resolve_nosym s sv SlEval cs) as Hns.
+  unfold read_file, go_read_file. rewrite open_rdonly. cbv zeta.
+  unfold k_open. change (decode_flags 0) with (OF 0 false false false false). cbv iota beta zeta.
+  change (negb (N.eqb (N.land (acc_mask 0 false) 2) 0)) with false. change (acc_mask 0 false) with 4%N. cbn [andb negb].
+  change (follow_of SlEval) with true in R. change (precise_of SlEval) with true in R.
+  destruct (klookup s sv false true (abs_path cs)) as [par kind name n|par name md| |e]; cbn [walk_rel] in R.
+  - destruct R as (R1 & R2 & R3 & _ & R4 & _). specialize (Hns n H eq_refl R1 R2).
+    rewrite R1, (R4 eq_refl), R2. cbn [is_file_exists is_not_exist negb andb orb].
+    destruct (get (f_heap s) n) as [[ch m|dt k i m|t m]|] eqn:Hg; [| |exfalso; exact (Hns t m eq_refl)|congruence].
+    + unfold check_permission. rewrite (sh_admin _ _ H), (admin_kperm s sv n _ H) by congruence. cbn [negb andb].
+      cbn [new_handle hd_node f_heap]. rewrite Hg. unfold f_read, file_of, new_handle. cbn [hd_name hd_node].
+      unfold abs_path at 1. cbv iota. rewrite Hg.
+      unfold win. rewrite (sh_os _ _ H). cbn [fst snd]. rewrite ?Hg. reflexivity.
+    + unfold check_permission. rewrite (sh_admin _ _ H), (admin_kperm s sv n _ H) by congruence. cbn [negb andb orb].
+      cbn [new_handle hd_node with_heap f_heap].
+      assert (Hg' : get (upd (f_heap s) n (NFile dt k i m)) n = Some (NFile dt k i m))
+        by (apply wget_upd_same; exact (wget_lt _ _ _ Hg)).
+      rewrite Hg'.
+      pose proof (f_read_whole (with_heap s (upd (f_heap s) n (NFile dt k i m))) (sv_view sv) n 0 (abs_path cs) dt k i m
+                    (abs_path_nonempty cs) Hg') as Hr.
+      fold (new_handle n 0 (abs_path cs) 0 OpenRead).
+      destruct (f_read _ _ _ _) as [f' r']. cbn [snd] in Hr. subst r'. rewrite Hg. destruct dt; reflexivity.
+  - destruct R as (R1 & R2 & R3 & R4). destruct (at_name_views _ _ _ _ _ _ (R4 eq_refl)) as (_ & V2 & _).
+    rewrite R1, V2. reflexivity.
+  - destruct R.
+  - destruct R as (R1 & R2). destruct (werr_cases _ _ R1 Hnf) as (Hc & ->).
+    destruct Hc as [Hc|[Hc|[Hc|Hc]]]; rewrite Hc in *; try reflexivity.
+    rewrite (R2 eq_refl eq_refl). reflexivity.
+Qed.
+
+(* ---- ReadDir --------------------------------------------------------------------------------------------------- *)
+Definition info_sim (i j : finfo) : Prop := exists nd name, i = fill_stat nd name /\ j = spec_info nd name.
+
+Lemma info_sim_name (i j : finfo) : info_sim i j -> fi_name i = fi_name j.
+Proof. intros (nd & name & -> & ->). destruct nd; reflexivity. Qed.
+
+Lemma insert_sorted_sim (x y : finfo) : forall (l1 l2 : list finfo),
+  info_sim x y -> Forall2 info_sim l1 l2 ->
+  Forall2 info_sim (insert_sorted (@fi_name) x l1) (insert_sorted (@fi_name) y l2).
+Proof.
+  intros l1 l2 Hxy Hl. induction Hl as [|a b l1 l2 Hab Hl IH]; cbn [insert_sorted].
+  - constructor; [exact Hxy|constructor].
+  - rewrite (info_sim_name _ _ Hab), (info_sim_name _ _ Hxy).
+    destruct (str_ltb (fi_name b) (fi_name y)); constructor; auto; constructor; auto.
+Qed.
+
+Lemma sort_by_sim (l1 l2 : list finfo) :
+  Forall2 info_sim l1 l2 -> Forall2 info_sim (sort_by (@fi_name) l1) (sort_by (@fi_name) l2).
+Proof.
+  intros Hl. unfold sort_by. induction Hl as [|a b l1 l2 Hab Hl IH]; cbn [fold_right]; [constructor|].
+  apply insert_sorted_sim; assumption.
+Qed.
+
+Lemma dir_infos_sim (h : heap) (ch : list (str * nat)) :
+  (forall n c, In (n, c) ch -> get h c <> None) ->
+  Forall2 info_sim (dir_infos h ch) (sort_by (@fi_name) (map (fun nc => k_info h (snd nc) (fst nc)) ch)).
+Proof.
+  intros Hv. unfold dir_infos. apply sort_by_sim. induction ch as [|[n c] ch IH]; cbn [flat_map map]; [constructor|].
+  destruct (get h c) as [nd|] eqn:Hg; [|exfalso; apply (Hv n c); [left; reflexivity|exact Hg]].
+  cbn [app fst snd]. constructor.
+  - exists nd, n. split; [reflexivity|]. apply k_info_spec. exact Hg.
+  - apply IH. intros n' c' Hin. apply (Hv n' c'). right. exact Hin.
+Qed.
+
+Definition obs_sim (a b : pres) : Prop :=
+  stat_sim a b \/ exists l1 l2, a = SInfos l1 /\ b = SInfos l2 /\ Forall2 info_sim l1 l2.
+
+Theorem step_read_dir (s : fsys) (sv : sview) (cs : list str) :
+  step_hyps s sv -> path_ok s sv SlEval cs -> ptr_valid (f_heap s) ->
+  obs_sim (proj_res Linux (read_dir s (sv_view sv) (abs_path cs))) (go_read_dir s sv (abs_path cs)).
+Proof.
+  intros H Hp Hpv. pose proof (resolve s sv SlEval cs H Hp) as R. destruct Hp as (_ & _ & _ & Hnf).
+  pose proof (resolve_nosym s sv SlEval cs) as Hns.
+  unfold read_dir, go_read_dir. rewrite open_rdonly. cbv zeta.
+  unfold k_open. change (decode_flags 0) with (OF 0 false false false false). cbv iota beta zeta.
+  change (negb (N.eqb (N.land (acc_mask 0 false) 2) 0)) with false. change (acc_mask 0 false) with 4%N. cbn [andb negb].
+  change (follow_of SlEval) with true in R. change (precise_of SlEval) with true in R.
+  destruct (klookup s sv false true (abs_path cs)) as [par kind name n|par name md| |e]; cbn [walk_rel] in R.
+  - destruct R as (R1 & R2 & R3 & _ & R4 & _). specialize (Hns n H eq_refl R1 R2).
+    rewrite R1, (R4 eq_refl), R2. cbn [is_file_exists is_not_exist negb andb orb].
+    destruct (get (f_heap s) n) as [[ch m|dt k i m|t m]|] eqn:Hg; [| |exfalso; exact (Hns t m eq_refl)|congruence].
+    + unfold check_permission. rewrite (sh_admin _ _ H), (admin_kperm s sv n _ H) by congruence. cbn [negb andb].
+      unfold f_read_dir, new_handle. cbn [hd_name hd_node hd_dir_infos]. unfold abs_path at 1. cbv iota. rewrite Hg.
+      change (Z.leb (-1) 0) with true. cbn [orb andb fst snd proj_res]. rewrite ?Hg. right. eexists _, _. split; [reflexivity|]. split; [reflexivity|].
+      apply dir_infos_sim. intros n' c' Hin. unfold get. apply nth_error_Some.
+      apply (Hpv n n' c'). unfold children. rewrite Hg. exact Hin.
+    + unfold check_permission. rewrite (sh_admin _ _ H), (admin_kperm s sv n _ H) by congruence. cbn [negb andb orb].
+      assert (Hg' : get (upd (f_heap s) n (NFile dt k i m)) n = Some (NFile dt k i m))
+        by (apply wget_upd_same; exact (wget_lt _ _ _ Hg)).
+      unfold f_read_dir, new_handle. cbn [hd_name hd_node with_heap f_heap]. unfold abs_path at 1. cbv iota.
+      rewrite Hg'. cbn [fst snd]. rewrite Hg. left. left. reflexivity.
+  - destruct R as (R1 & R2 & R3 & R4). destruct (at_name_views _ _ _ _ _ _ (R4 eq_refl)) as (_ & V2 & _).
+    rewrite R1, V2. left. left. reflexivity.
+  - destruct R.
+  - destruct R as (R1 & R2). destruct (werr_cases _ _ R1 Hnf) as (Hc & ->). left. left.
+    destruct Hc as [Hc|[Hc|[Hc|Hc]]]; rewrite Hc in *; try reflexivity.
+    rewrite (R2 eq_refl eq_refl). reflexivity.
+Qed.
+
 (* ---- the step theorem at the level of worlds --------------------------------------------------------------------- *)
 (* the specification state [sw] abstracts the world [w] seen through view [vi]: same file system, same view
    (the working directory plays no role for absolute paths) *)
@@ -548,6 +757,10 @@ Definition covered (vi : nat) (sw : sworld) (c : call) : Prop :=
   | CLink vi' o p =>
       vi' = vi /\ exists co w cl, o = abs_path co /\ p = abs_path (w ++ [cl]) /\ path_ok s sv SlLstat co
                                   /\ path_ok s sv SlLstat (w ++ [cl]) /\ not_symlink s sv co
+  | CChown vi' p _ _ => vi' = vi /\ exists cs, p = abs_path cs /\ path_ok s sv SlEval cs /\ no_setid s sv true cs
+  | CLchown vi' p _ _ => vi' = vi /\ exists cs, p = abs_path cs /\ path_ok s sv SlLstat cs /\ no_setid s sv false cs
+  | CReadFile vi' p => vi' = vi /\ exists cs, p = abs_path cs /\ path_ok s sv SlEval cs
+  | CReadDir vi' p => vi' = vi /\ ptr_valid (f_heap s) /\ exists cs, p = abs_path cs /\ path_ok s sv SlEval cs
   | _ => False
   end.
 
@@ -555,8 +768,8 @@ Lemma absw_with_fs (w : world) (vi : nat) (sw : sworld) (s1 : fsys) :
   absw w vi sw -> absw (with_fs w s1) vi {| sw_fs := s1; sw_sv := sw_sv sw |}.
 Proof. intros (_ & Hv). split; [reflexivity|exact Hv]. Qed.
 
-Lemma stat_sim_refl (r : pres) : stat_sim r r.
-Proof. left. reflexivity. Qed.
+Lemma obs_sim_refl (r : pres) : obs_sim r r.
+Proof. left. left. reflexivity. Qed.
 
 (* unfolding the two step functions, with the paths kept abstract *)
 Section StepEqns.
@@ -596,6 +809,14 @@ Section StepEqns.
   Proof. unfold wstep, on_view. rewrite Hv. reflexivity. Qed.
   Lemma wstep_lstat p : wstep w (CLstat vi p) = (w, stat_gen SlLstat (w_fs w) v p).
   Proof. unfold wstep, on_view. rewrite Hv. reflexivity. Qed.
+  Lemma wstep_chown p uid gid : wstep w (CChown vi p uid gid) = lift w (chown_gen SlEval (w_fs w) v p uid gid).
+  Proof. unfold wstep, on_view. rewrite Hv. reflexivity. Qed.
+  Lemma wstep_lchown p uid gid : wstep w (CLchown vi p uid gid) = lift w (chown_gen SlLstat (w_fs w) v p uid gid).
+  Proof. unfold wstep, on_view. rewrite Hv. reflexivity. Qed.
+  Lemma wstep_read_file p : wstep w (CReadFile vi p) = (w, read_file (w_fs w) v p).
+  Proof. unfold wstep, on_view. rewrite Hv. reflexivity. Qed.
+  Lemma wstep_read_dir p : wstep w (CReadDir vi p) = (w, read_dir (w_fs w) v p).
+  Proof. unfold wstep, on_view. rewrite Hv. reflexivity. Qed.
 End StepEqns.
 
 Lemma spec_keep (sw : sworld) (r : fsys * pres) :
@@ -628,6 +849,16 @@ Lemma spec_stat sw vi p : spec_step true sw (CStat vi p) = (sw, k_stat true (sw_
 Proof. reflexivity. Qed.
 Lemma spec_lstat sw vi p : spec_step true sw (CLstat vi p) = (sw, k_stat false (sw_fs sw) (sw_sv sw) p).
 Proof. reflexivity. Qed.
+Lemma spec_chown sw vi p uid gid : spec_step true sw (CChown vi p uid gid)
+  = ({| sw_fs := fst (k_chown true (sw_fs sw) (sw_sv sw) p uid gid); sw_sv := sw_sv sw |}, snd (k_chown true (sw_fs sw) (sw_sv sw) p uid gid)).
+Proof. reflexivity. Qed.
+Lemma spec_lchown sw vi p uid gid : spec_step true sw (CLchown vi p uid gid)
+  = ({| sw_fs := fst (k_chown false (sw_fs sw) (sw_sv sw) p uid gid); sw_sv := sw_sv sw |}, snd (k_chown false (sw_fs sw) (sw_sv sw) p uid gid)).
+Proof. reflexivity. Qed.
+Lemma spec_read_file sw vi p : spec_step true sw (CReadFile vi p) = (sw, go_read_file (sw_fs sw) (sw_sv sw) p).
+Proof. reflexivity. Qed.
+Lemma spec_read_dir sw vi p : spec_step true sw (CReadDir vi p) = (sw, go_read_dir (sw_fs sw) (sw_sv sw) p).
+Proof. reflexivity. Qed.
 
 (* a mutating call: from the call-level equation to the world level *)
 Lemma world_of_lift (w : world) (vi : nat) (sw : sworld) (c : call) (f : fsys * res) (g : fsys * pres) :
@@ -635,22 +866,22 @@ Lemma world_of_lift (w : world) (vi : nat) (sw : sworld) (c : call) (f : fsys * 
   impl_step_proj w c = (with_fs w (fst f), proj_res Linux (snd f)) ->
   spec_step true sw c = ({| sw_fs := fst g; sw_sv := sw_sv sw |}, snd g) ->
   (fst f, proj_res Linux (snd f)) = g ->
-  stat_sim (snd (impl_step_proj w c)) (snd (spec_step true sw c))
+  obs_sim (snd (impl_step_proj w c)) (snd (spec_step true sw c))
   /\ absw (fst (impl_step_proj w c)) vi (fst (spec_step true sw c)).
 Proof.
-  intros Ha Ei Es E. rewrite Ei, Es, <- E. cbn [fst snd]. split; [apply stat_sim_refl|]. exact (absw_with_fs w vi sw _ Ha).
+  intros Ha Ei Es E. rewrite Ei, Es, <- E. cbn [fst snd]. split; [apply obs_sim_refl|]. exact (absw_with_fs w vi sw _ Ha).
 Qed.
 
 Lemma world_of_ro (w : world) (vi : nat) (sw : sworld) (c : call) (r : res) (g : pres) :
   absw w vi sw ->
-  impl_step_proj w c = (w, proj_res Linux r) -> spec_step true sw c = (sw, g) -> stat_sim (proj_res Linux r) g ->
-  stat_sim (snd (impl_step_proj w c)) (snd (spec_step true sw c))
+  impl_step_proj w c = (w, proj_res Linux r) -> spec_step true sw c = (sw, g) -> obs_sim (proj_res Linux r) g ->
+  obs_sim (snd (impl_step_proj w c)) (snd (spec_step true sw c))
   /\ absw (fst (impl_step_proj w c)) vi (fst (spec_step true sw c)).
 Proof. intros Ha Ei Es E. rewrite Ei, Es. cbn [fst snd]. split; [exact E|exact Ha]. Qed.
 
 Theorem step_world (w : world) (vi : nat) (sw : sworld) (c : call) :
   absw w vi sw -> covered vi sw c ->
-  stat_sim (snd (impl_step_proj w c)) (snd (spec_step true sw c))
+  obs_sim (snd (impl_step_proj w c)) (snd (spec_step true sw c))
   /\ absw (fst (impl_step_proj w c)) vi (fst (spec_step true sw c)).
 Proof.
   intros Ha (H & Hc). pose proof Ha as (Hfs & Hv).
@@ -684,7 +915,7 @@ Proof.
     apply (world_of_ro w vi sw _ (readlink (w_fs w) (sv_view (sw_sv sw)) p) (k_readlink (sw_fs sw) (sw_sv sw) p) Ha).
     + apply (impl_ro w _ _ (wstep_readlink w vi _ Hv p)). exact I.
     + apply spec_readlink.
-    + rewrite <- Hfs, Ep, (step_readlink (sw_fs sw) (sw_sv sw) cs H Hp). apply stat_sim_refl.
+    + rewrite <- Hfs, Ep, (step_readlink (sw_fs sw) (sw_sv sw) cs H Hp). apply obs_sim_refl.
   - (* Truncate *)
     destruct Hc as (-> & cs & Ep & Hp).
     apply (world_of_lift w vi sw _ (truncate (w_fs w) (sv_view (sw_sv sw)) p size) (k_truncate (sw_fs sw) (sw_sv sw) p size) Ha).
@@ -697,24 +928,50 @@ Proof.
     + apply (impl_lift w _ _ (wstep_chmod w vi _ Hv p mode)); [left; discriminate|exact I].
     + apply spec_chmod.
     + rewrite <- Hfs, Ep. exact (step_chmod (sw_fs sw) (sw_sv sw) cs mode H Hp).
+  - (* Chown *)
+    destruct Hc as (-> & cs & Ep & Hp & Hns).
+    apply (world_of_lift w vi sw _ (chown_gen SlEval (w_fs w) (sv_view (sw_sv sw)) p uid gid)
+             (k_chown true (sw_fs sw) (sw_sv sw) p uid gid) Ha).
+    + apply (impl_lift w _ _ (wstep_chown w vi _ Hv p uid gid)); [left; discriminate|exact I].
+    + apply spec_chown.
+    + rewrite <- Hfs, Ep. exact (step_chown (sw_fs sw) (sw_sv sw) SlEval cs uid gid H Hp Hns).
+  - (* Lchown *)
+    destruct Hc as (-> & cs & Ep & Hp & Hns).
+    apply (world_of_lift w vi sw _ (chown_gen SlLstat (w_fs w) (sv_view (sw_sv sw)) p uid gid)
+             (k_chown false (sw_fs sw) (sw_sv sw) p uid gid) Ha).
+    + apply (impl_lift w _ _ (wstep_lchown w vi _ Hv p uid gid)); [left; discriminate|exact I].
+    + apply spec_lchown.
+    + rewrite <- Hfs, Ep. exact (step_chown (sw_fs sw) (sw_sv sw) SlLstat cs uid gid H Hp Hns).
   - (* Chtimes *)
     destruct Hc as (-> & cs & Ep & Hp).
     apply (world_of_ro w vi sw _ (chtimes (w_fs w) (sv_view (sw_sv sw)) p) (k_utimes (sw_fs sw) (sw_sv sw) p) Ha).
     + apply (impl_ro w _ _ (wstep_chtimes w vi _ Hv p)). exact I.
     + apply spec_chtimes.
-    + rewrite <- Hfs, Ep, (step_chtimes (sw_fs sw) (sw_sv sw) cs H Hp). apply stat_sim_refl.
+    + rewrite <- Hfs, Ep, (step_chtimes (sw_fs sw) (sw_sv sw) cs H Hp). apply obs_sim_refl.
   - (* Stat *)
     destruct Hc as (-> & cs & Ep & Hp).
     apply (world_of_ro w vi sw _ (stat_gen SlStat (w_fs w) (sv_view (sw_sv sw)) p) (k_stat true (sw_fs sw) (sw_sv sw) p) Ha).
     + apply (impl_ro w _ _ (wstep_stat w vi _ Hv p)). exact I.
     + apply spec_stat.
-    + rewrite <- Hfs, Ep. exact (step_stat (sw_fs sw) (sw_sv sw) SlStat cs H Hp).
+    + rewrite <- Hfs, Ep. left. exact (step_stat (sw_fs sw) (sw_sv sw) SlStat cs H Hp).
   - (* Lstat *)
     destruct Hc as (-> & cs & Ep & Hp).
     apply (world_of_ro w vi sw _ (stat_gen SlLstat (w_fs w) (sv_view (sw_sv sw)) p) (k_stat false (sw_fs sw) (sw_sv sw) p) Ha).
     + apply (impl_ro w _ _ (wstep_lstat w vi _ Hv p)). exact I.
     + apply spec_lstat.
-    + rewrite <- Hfs, Ep. exact (step_stat (sw_fs sw) (sw_sv sw) SlLstat cs H Hp).
+    + rewrite <- Hfs, Ep. left. exact (step_stat (sw_fs sw) (sw_sv sw) SlLstat cs H Hp).
+  - (* ReadDir *)
+    destruct Hc as (-> & Hpv & cs & Ep & Hp).
+    apply (world_of_ro w vi sw _ (read_dir (w_fs w) (sv_view (sw_sv sw)) p) (go_read_dir (sw_fs sw) (sw_sv sw) p) Ha).
+    + apply (impl_ro w _ _ (wstep_read_dir w vi _ Hv p)). exact I.
+    + apply spec_read_dir.
+    + rewrite <- Hfs, Ep. exact (step_read_dir (sw_fs sw) (sw_sv sw) cs H Hp Hpv).
+  - (* ReadFile *)
+    destruct Hc as (-> & cs & Ep & Hp).
+    apply (world_of_ro w vi sw _ (read_file (w_fs w) (sv_view (sw_sv sw)) p) (go_read_file (sw_fs sw) (sw_sv sw) p) Ha).
+    + apply (impl_ro w _ _ (wstep_read_file w vi _ Hv p)). exact I.
+    + apply spec_read_file.
+    + rewrite <- Hfs, Ep, (step_read_file (sw_fs sw) (sw_sv sw) cs H Hp). apply obs_sim_refl.
 Qed.
 
 (* ---- histories ------------------------------------------------------------------------------------------------------- *)
@@ -741,7 +998,7 @@ Fixpoint covered_run (vi : nat) (sw : sworld) (cs : list call) : Prop :=
 
 Theorem history_world (vi : nat) : forall (cs : list call) (w : world) (sw : sworld),
   absw w vi sw -> covered_run vi sw cs ->
-  Forall2 stat_sim (snd (impl_run w cs)) (snd (spec_run sw cs))
+  Forall2 obs_sim (snd (impl_run w cs)) (snd (spec_run sw cs))
   /\ absw (fst (impl_run w cs)) vi (fst (spec_run sw cs)).
 Proof.
   induction cs as [|c cs IH]; intros w sw Ha Hc.
@@ -801,3 +1058,4 @@ Module StepExamples.
     /\ w_fs (fst (impl_run w_tree hist)) = sw_fs (fst (spec_run sw_tree hist)).
   Proof. vm_compute. repeat split; reflexivity. Qed.
 End StepExamples.
+
